@@ -390,6 +390,27 @@ def logical_physical_rule(chk, P, rule, min_pairs=2):
                            'a %s address is combined with a %s address (%s %s %s): inside a PHASE block the two differ by '
                            'the phase offset' % ('logical' if 'L' in a else 'physical', 'logical' if 'L' in c else 'physical',
                                                  show(m[2]), m[1], show(m[3])))
+    # label values are logical addresses: what is handed to the label bookkeeping never comes from ProgCounter()
+    for f in P.all_funcs():
+        for b, i, ln, c in f.calls({'LabelHandle', 'LabelModify'}):
+            for ai, a in enumerate(c[2]):
+                exprs = [a]
+                for x in walk(a):
+                    if isinstance(x, (list, tuple)) and x and x[0] == 'l':
+                        for b2, i2, l2, m in f.nodes():
+                            if (m[0] == 'decl' and m[1] == x[1] and m[2] is not None):
+                                exprs.append(m[2])
+                            elif is_assign(m) and strip(m[2]) == ('l', x[1]):
+                                exprs.append(m[3])
+                if not any(has_call(e, 'EProgCounter') or has_call(e, 'ProgCounter') for e in exprs):
+                    continue
+                n += 1
+                ok = not any(has_call(e, 'ProgCounter') for e in exprs)
+                chk.ob(rule, '%s:%s:%s#%d' % (f.unit.name, f.name, callee_name(c), ai + 1), ok, f.loc(ln),
+                       'logical address' if ok else
+                       'a value taken from ProgCounter() (physical address) is handed to %s(), which compares and stores label '
+                       'values as logical addresses: inside a PHASE block the label is not found / gets the unphased address' %
+                       callee_name(c))
     if n < min_pairs:
         raise AnalysisBroken('%s: only %d logical/physical address pairs found' % (rule, n))
     return n
